@@ -47,3 +47,21 @@ package tar
 //@   site[inspects_the_path_built_so_far] call:Lstat : arg0 == platformPath
 //@   site[never_creates_directories] call:MkdirAll : false
 //@   site[never_creates_a_directory] call:Mkdir : false
+
+// ---- C38: only the entry's own last path element makes way, and only if it is not a populated directory --
+// A file or link entry replaces what is at its path with os.Remove, which refuses a non-empty directory:
+// a directory with extracted content (and pending metadata updates for that content) is never swapped for
+// a link behind the back of those updates.
+//@ func (*Extractor).extractSymlink
+//@   prop C38
+//@   arith int-assumed
+//@   modifies all
+//@   site[never_removes_a_whole_tree] call:RemoveAll : false
+//@   site[removes_only_its_own_path] call:Remove : arg0 == path
+//@   site[link_created_at_its_own_path_after_the_removal] call:Symlink : arg1 == path && called("call:Remove#0")
+//@ func (*Extractor).extractFile
+//@   prop C38
+//@   arith int-assumed
+//@   modifies all
+//@   site[never_removes_a_whole_tree] call:RemoveAll : false
+//@   site[first_makes_way_at_its_own_path] call:Remove#0 : arg0 == path
